@@ -241,6 +241,8 @@ func alphabet() []action {
 			d.page().texts++
 		}},
 		textAction("Text(EBGaramond,\"Hi\")", "EBGaramond", "Hi", func(f *canvas.Font) *canvas.FontFace { return f.Face(12, canvas.Black) }),
+		// only characters the font does not have: the only glyph used is .notdef
+		textAction("Text(EBGaramond,\"漢字\")", "EBGaramond", "漢字", func(f *canvas.Font) *canvas.FontFace { return f.Face(12, canvas.Black) }),
 		textAction("Text(EBGaramond,\"fi Ünï č\"+ascii95)", "EBGaramond", "fi Ünï č"+ascii95, func(f *canvas.Font) *canvas.FontFace { return f.Face(9, canvas.Blue) }),
 		action{"Image(opaque,rotated)", func(d *doc) {
 			d.p.RenderImage(imgOpaque, canvas.Identity.Translate(20, 5).Rotate(30).Scale(2, 2))
